@@ -19,7 +19,9 @@ Proof. decide equality; apply Nat.eq_dec. Qed.
 
 Lemma asite_eqb_eq s t : asite_eqb s t = true <-> s = t.
 Proof.
-  destruct s as [f i|f|k|f c|f c], t as [g j|g|l|g d|g d]; cbn; split; intros H; try discriminate;
+  destruct s as [f i|f|k|f c|f c|k m i|k m], t as [g j|g|l|g d|g d|k' m' i'|k' m']; cbn; split; intros H; try discriminate;
+    try (apply andb_true_iff in H; destruct H as [H1 H2]; apply andb_true_iff in H1; destruct H1 as [H0 H1];
+         apply Nat.eqb_eq in H0, H1, H2; now subst);
     try (apply andb_true_iff in H; destruct H as [H1 H2]; apply Nat.eqb_eq in H1, H2; now subst);
     try (apply Nat.eqb_eq in H; now subst);
     inversion H; subst; rewrite ?Nat.eqb_refl; reflexivity.
@@ -167,7 +169,14 @@ Section Judgement.
         (forall eb, ob = Some eb -> env_le eb einv) ->
         J (SWhile c body) e (Some ef)
     | JReturn a e : (forall p, In p (prods_of_atom e a) -> Has (mk_trigger 0 p (CSite (SResult f)))) ->
-        use_ok (prods_of_atom e a) = true -> J (SReturn a) e None.
+        use_ok (prods_of_atom e a) = true -> J (SReturn a) e None
+    | JConv x k j e : J (SConv x k j) e (Some (aput e x [PNever]))
+    | JCallI cs d x xi k m args e :
+        (forall p, In p (aget e xi) -> Has (mk_trigger d p CAlways)) -> use_ok (aget e xi) = true ->
+        args_ok e (SIParam k m) args -> forallb (fun a => use_ok (prods_of_atom e a)) args = true ->
+        incl_all (match x with Some y => store_triggers y [PSite (SIResult k m)] | None => [] end) ->
+        J (SCallI cs d x xi k m args) e
+          (Some (match x with Some y => aput (mark_stale ng e) y [PSite (SIResult k m)] | None => mark_stale ng e end)).
 
   Lemma J_skip_inv e o : J SSkip e o -> o = Some e.
   Proof. inversion 1; subst; auto. Qed.
@@ -196,6 +205,15 @@ Section Judgement.
     (forall p, In p (prods_of_atom e a) -> Has (mk_trigger 0 p (CSite (SResult f)))) /\
     use_ok (prods_of_atom e a) = true /\ o = None.
   Proof. inversion 1; subst; auto. Qed.
+
+  Lemma J_conv_inv x k j e o : J (SConv x k j) e o -> o = Some (aput e x [PNever]).
+  Proof. inversion 1; subst; auto. Qed.
+  Lemma J_calli_inv cs d x xi k m args e o : J (SCallI cs d x xi k m args) e o ->
+    (forall p, In p (aget e xi) -> Has (mk_trigger d p CAlways)) /\ use_ok (aget e xi) = true /\
+    args_ok e (SIParam k m) args /\ forallb (fun a => use_ok (prods_of_atom e a)) args = true /\
+    incl_all (match x with Some y => store_triggers y [PSite (SIResult k m)] | None => [] end) /\
+    o = Some (match x with Some y => aput (mark_stale ng e) y [PSite (SIResult k m)] | None => mark_stale ng e end).
+  Proof. inversion 1; subst; repeat split; auto. Qed.
 
   Lemma arg_triggers_ok e sf : forall args i0,
     (forall t, In t (arg_triggers e sf i0 args) -> Has t) ->
@@ -235,7 +253,7 @@ Section Judgement.
   Lemma analyze_J fuel : forall st e r,
     analyze ng ctr sp f fuel st e = Some r -> a_gsafe r = true -> incl_all (a_trig r) -> J st e (a_env r).
   Proof.
-    induction st as [| s1 IH1 s2 IH2 | x a | cs x g args | d x | c s1 IH1 s2 IH2 | c body IH | a]; intros e r H Hg Hall; cbn in H.
+    induction st as [| s1 IH1 s2 IH2 | x a | cs x g args | d x | c s1 IH1 s2 IH2 | c body IH | a | x k j | cs d x xi k m args]; intros e r H Hg Hall; cbn in H.
     - inversion H; subst. constructor.
     - destruct (analyze ng ctr sp f fuel s1 e) as [r1|] eqn:E1; try discriminate.
       destruct (a_env r1) as [e1|] eqn:Ee1.
@@ -261,6 +279,12 @@ Section Judgement.
       apply incl_all_app in Hall. destruct Hall as [Ha0 Ha1].
       eapply JWhile; eauto.
     - inversion H; subst. cbn in *. constructor; auto. intros p Hp. apply Hall. apply in_map_iff. exists p. auto.
+    - inversion H; subst. cbn in *. constructor.
+    - inversion H; subst. cbn in *. apply andb_true_iff in Hg. destruct Hg as [Hg1 Hg2].
+      apply incl_all_app in Hall. destruct Hall as [Ha0 Hall]. apply incl_all_app in Hall. destruct Hall as [Ha1 Ha2].
+      constructor; auto.
+      + intros p Hp. apply Ha0. apply in_map_iff. exists p. auto.
+      + intros i a Hn p Hp. apply (arg_triggers_ok e (SIParam k m) args 0 Ha1 i a Hn p Hp).
   Qed.
 End Judgement.
 
@@ -357,7 +381,7 @@ Proof.
 Qed.
 
 Lemma init_globals_get gi : forall k0 k, sget (init_globals k0 gi) (VG k) =
-  if Nat.leb k0 k then match nth_error gi (k - k0) with Some true => VPtr | _ => VNil end else VNil.
+  if Nat.leb k0 k then match nth_error gi (k - k0) with Some true => VPtr None | _ => VNil end else VNil.
 Proof.
   induction gi as [|b gi IH]; intros k0 k; cbn.
   - destruct (Nat.leb k0 k); auto. destruct (k - k0); reflexivity.
@@ -389,9 +413,9 @@ Qed.
 (* the run-time meaning of a nonnil->nonnil contract: started with a non-nil argument (whatever the package-level
    variables hold and the opaque conditions answer), the function returns a non-nil value *)
 Definition contract_true (prog : program) (fd : func) : Prop :=
-  forall fuel gs oracle, (forall x, sget gs (VL x) = VNil) ->
-    match exec prog fuel (f_body fd) (bind_params 0 [VPtr] ++ gs) oracle with
-    | OReturn v _ _ => v = VPtr
+  forall fuel gs oracle d, (forall x, sget gs (VL x) = VNil) ->
+    match exec prog fuel (f_body fd) (bind_params 0 [VPtr d] ++ gs) oracle with
+    | OReturn v _ _ => v <> VNil
     | ONormal _ _ => False
     | _ => True
     end.
@@ -438,9 +462,13 @@ Section Sound.
   Hypothesis WF : forall g fd, nth_error (p_funcs prog) g = Some fd -> stmt_ok prog (f_body fd) = true.
   Hypothesis CtrTrue : forall g fd, ctr g = true -> nth_error (p_funcs prog) g = Some fd ->
     f_nparams fd = 1 /\ contract_true prog fd.
-  (* every call of a contracted function comes from the callee's package *)
+  Hypothesis ImplsPlain : forall row f, In row (p_impls prog) -> In f row -> ctr f = false.
+  (* every call of a contracted function comes from the callee's package; the (interface, implementation) pairs
+     of the conversions have their triggers *)
+  Definition W (kj : nat * nat) : Prop := forall t, In t (affil prog kj) -> In t ALLs.
   Definition calls_ok (g : fname) (st : stmt) : Prop :=
-    forall h cs, In (h, cs) (calls_of st) -> ctr h = true -> sp2 g h = true /\ ctx_ok h (Some cs).
+    (forall h cs, In (h, cs) (calls_of st) -> ctr h = true -> sp2 g h = true /\ ctx_ok h (Some cs)) /\
+    (forall kj, In kj (convs_of st) -> W kj).
   Hypothesis CallsOK : forall g fd, nth_error (p_funcs prog) g = Some fd -> calls_ok g (f_body fd).
 
   Definition nu (s : asite) : Prop := nilr C (enc s).
@@ -449,6 +477,9 @@ Section Sound.
     forall x, var_ok prog x = true -> sget s x = VNil -> exists p, In p (aget e x) /\ nilable (psub g c p).
   (* a package-level variable that holds nil has a nil-able site *)
   Definition GInv (s : store) : Prop := forall k, k < ng -> sget s (VG k) = VNil -> nu (SGlobal k).
+  (* an interface value stems from a conversion of the program *)
+  Definition Vok (v : value) : Prop := forall k j, v = VPtr (Some (k, j)) -> W (k, j).
+  Definition DInv (s : store) : Prop := forall x, Vok (sget s x).
   (* what a nil result means for the caller *)
   Definition ret_ok (g : fname) (c : option nat) : Prop :=
     match c with
@@ -534,8 +565,26 @@ Section Sound.
     unfold nu. rewrite <- E. eapply tsite; eauto. intros cs _ E2. congruence.
   Qed.
 
+  (* an uncontrolled site-to-site trigger of the program is an edge *)
+  Lemma edge_plain p c : In (mk_trigger 0 (PSite p) (CSite c)) ALLs -> nu p -> nu c.
+  Proof.
+    intros Ht Hp. apply nr_edge with (enc p) 0; auto.
+    eapply (in_base (mk_trigger 0 (PSite p) (CSite c))); eauto. cbn. left. reflexivity.
+  Qed.
+
   Lemma respects_le g c s e1 e2 : respects g c s e1 -> env_le e1 e2 -> respects g c s e2.
   Proof. intros H Hle x Hok Hx. destruct (H x Hok Hx) as [p [Hp Hn]]. exists p. split; auto. Qed.
+
+  Lemma DInv_sset s x v : DInv s -> Vok v -> DInv (sset s x v).
+  Proof. intros H Hv y. rewrite sget_sset. destruct (var_eqb x y); auto. Qed.
+
+  Lemma Vok_nil : Vok VNil.
+  Proof. intros k j E. discriminate. Qed.
+  Lemma Vok_plain : Vok (VPtr None).
+  Proof. intros k j E. discriminate. Qed.
+
+  Lemma Vok_atom s a : DInv s -> Vok (eval_atom s a).
+  Proof. intros H. destruct a; cbn; [apply Vok_nil | apply Vok_plain | apply H]. Qed.
 
   Lemma inv_assign g c s e x v a :
     respects g c s e -> GInv s -> (v = VNil -> exists p, In p a /\ nilable (psub g c p)) ->
@@ -551,6 +600,14 @@ Section Sound.
       apply Hst. cbn. apply in_map_iff. exists p. split; eauto.
   Qed.
 
+  Lemma inv_assign_nonnil g c s e x v a :
+    respects g c s e -> GInv s -> v <> VNil -> respects g c (sset s x v) (aput e x a) /\ GInv (sset s x v).
+  Proof.
+    intros H HG Hv. split.
+    - intros y Hok Hy. rewrite sget_sset in Hy. rewrite aget_aput. destruct (var_eqb x y); auto. contradiction.
+    - intros k Hk Hy. rewrite sget_sset in Hy. destruct (var_eqb x (VG k)); auto. contradiction.
+  Qed.
+
   Lemma eval_atom_respects g c s e a : atom_ok prog a = true -> respects g c s e -> eval_atom s a = VNil ->
     exists p, In p (prods_of_atom e a) /\ nilable (psub g c p).
   Proof.
@@ -560,7 +617,7 @@ Section Sound.
     - auto.
   Qed.
 
-  Lemma respects_nonnil g c s e x : respects g c s e -> sget s x = VPtr -> respects g c s (aput e x [PNever]).
+  Lemma respects_nonnil g c s e x : respects g c s e -> sget s x <> VNil -> respects g c s (aput e x [PNever]).
   Proof.
     intros H Hx y Hok Hy. rewrite aget_aput. destruct (var_eqb x y) eqn:E; auto.
     apply var_eqb_eq in E; subst. congruence.
@@ -575,7 +632,7 @@ Section Sound.
   Proof.
     induction c as [|x|d x|c IH|c1 IH1 c2 IH2|c1 IH1 c2 IH2]; intros e et ef tr s oracle Ha Hall Hok Hr; cbn in Ha, Hok |- *.
     - inversion Ha; subst. destruct (ask oracle) as [b o]. now destruct b.
-    - inversion Ha; subst. destruct (sget s x) eqn:E; auto. now apply respects_nonnil.
+    - inversion Ha; subst. destruct (sget s x) eqn:E; auto. apply respects_nonnil; auto. congruence.
     - inversion Ha as [[E1 E2 E3 Hu]]; subst. destruct (sget s x) eqn:E.
       + destruct (Hr x Hok E) as [p [Hp Hn]]. eapply tderef; [|exact Hn|eapply use_ok_in; eauto].
         apply Hall. apply in_map_iff. exists p. eauto.
@@ -606,50 +663,51 @@ Section Sound.
   Lemma forallb_nth {A} (P : A -> bool) l i a : forallb P l = true -> nth_error l i = Some a -> P a = true.
   Proof. intros H Hn. rewrite forallb_forall in H. apply H. eapply nth_error_In; eauto. Qed.
 
-  (* an argument that is nil makes its (call-site) parameter site nil-able *)
-  Lemma arg_site g c s e h cs args i a :
-    respects g c s e -> args_ok (Has g c) e (call_param_site ctr h cs) args ->
+  (* an argument that is nil makes the site it is passed to nil-able *)
+  Lemma arg_site g c s e (sf : nat -> asite) args i a :
+    respects g c s e -> args_ok (Has g c) e sf args ->
     forallb (atom_ok prog) args = true -> forallb (fun a => use_ok (prods_of_atom e a)) args = true ->
-    nth_error args i = Some a -> eval_atom s a = VNil -> nu (call_param_site ctr h cs i).
+    (forall i, asite_eqb (sf i) (SResult g) = false) ->
+    nth_error args i = Some a -> eval_atom s a = VNil -> nu (sf i).
   Proof.
-    intros Hr Hargs Hoks Hus Ea Hv.
+    intros Hr Hargs Hoks Hus Hsf Ea Hv.
     destruct (eval_atom_respects g c s e a (forallb_nth _ _ _ _ Hoks Ea) Hr Hv) as [p [Hp Hn]].
-    eapply (tsite_plain g c 0 p); [exact (Hargs i a Ea p Hp) | exact Hn | |].
-    - eapply use_ok_in; [|exact Hp]. apply (forallb_nth (fun a => use_ok (prods_of_atom e a)) _ _ _ Hus Ea).
-    - unfold call_param_site. destruct (ctr h); reflexivity.
+    eapply (tsite_plain g c 0 p); [exact (Hargs i a Ea p Hp) | exact Hn | | apply Hsf].
+    eapply use_ok_in; [|exact Hp]. apply (forallb_nth (fun a => use_ok (prods_of_atom e a)) _ _ _ Hus Ea).
   Qed.
 
-  (* the arguments of a call, and the package-level variables, respect the callee's entry environment *)
-  Lemma call_entry g c s e h cs args n (c' : option nat) :
-    respects g c s e -> GInv s -> args_ok (Has g c) e (call_param_site ctr h cs) args ->
-    forallb (atom_ok prog) args = true ->
-    forallb (fun a => use_ok (prods_of_atom e a)) args = true -> length args = n ->
-    (forall i, i < n -> psub h c' (PSite (SParam h i)) = PSite (call_param_site ctr h cs i)) ->
-    respects h c' (bind_params 0 (map (eval_atom s) args) ++ globals_of s) (entry_env h 0 n) /\
-    GInv (bind_params 0 (map (eval_atom s) args) ++ globals_of s).
+  (* the store a callee starts from: parameters from the values vs (parameter i nil-able when vs[i] is nil),
+     package-level variables as the caller has them *)
+  Lemma callee_entry h c' s vs n :
+    GInv s -> DInv s -> (forall v, In v vs -> Vok v) -> length vs = n ->
+    (forall i, nth_error vs i = Some VNil -> nilable (psub h c' (PSite (SParam h i)))) ->
+    respects h c' (bind_params 0 vs ++ globals_of s) (entry_env h 0 n) /\
+    GInv (bind_params 0 vs ++ globals_of s) /\ DInv (bind_params 0 vs ++ globals_of s).
   Proof.
-    intros Hr HG Hargs Hoks Hus Hlen Hsub. split.
+    intros HG HD Hvs Hlen Hnil. split; [|split].
     - intros x Hok Hx. rewrite sget_callee in Hx. rewrite entry_env_get. destruct x as [i|k].
       + cbn [Nat.leb andb Nat.add]. destruct (Nat.ltb i n) eqn:L.
-        * apply Nat.ltb_lt in L. exists (PSite (SParam h i)). split; [left; reflexivity|]. rewrite (Hsub i L). cbn.
-          destruct (nth_error (map (eval_atom s) args) i) as [v|] eqn:En.
-          -- subst v. rewrite nth_error_map in En. destruct (nth_error args i) as [a|] eqn:Ea; [|discriminate].
-             cbn in En. inversion En as [Hv]. eapply arg_site; eauto.
-          -- apply nth_error_None in En. rewrite map_length in En. lia.
+        * apply Nat.ltb_lt in L. exists (PSite (SParam h i)). split; [left; reflexivity|].
+          destruct (nth_error vs i) as [v|] eqn:En.
+          -- subst v. now apply Hnil.
+          -- apply nth_error_None in En. lia.
         * exists PNil. split; [left; reflexivity |]. destruct c'; cbn; auto.
       + exists (PSite (SGlobal k)). split; [left; reflexivity|].
         assert (E : psub h c' (PSite (SGlobal k)) = PSite (SGlobal k)) by (destruct c'; reflexivity).
         rewrite E. cbn. apply HG; auto. cbn in Hok. now apply Nat.ltb_lt in Hok.
     - intros k Hk Hx. rewrite sget_callee in Hx. auto.
+    - intros x. rewrite sget_callee. destruct x as [i|k]; [|apply HD].
+      destruct (nth_error vs i) as [v|] eqn:En; [|apply Vok_nil]. apply Hvs. eapply nth_error_In; eauto.
   Qed.
 
   (* back in the caller: locals as before the call, package-level variables as the callee left them; those
      whose tracked value is no longer (also) their site are marked stale *)
   Lemma after_call g c s s' e :
-    respects g c s e -> GInv s' ->
-    respects g c (globals_of s' ++ locals_of s) (mark_stale ng e) /\ GInv (globals_of s' ++ locals_of s).
+    respects g c s e -> GInv s' -> DInv s -> DInv s' ->
+    respects g c (globals_of s' ++ locals_of s) (mark_stale ng e) /\ GInv (globals_of s' ++ locals_of s) /\
+    DInv (globals_of s' ++ locals_of s).
   Proof.
-    intros Hr HG. split.
+    intros Hr HG HD HD'. split; [|split].
     - intros x Hok Hx. rewrite sget_after in Hx. rewrite aget_mark_stale. destruct x as [i|k]; cbn in Hx.
       + apply Hr; auto.
       + assert (Hk : Nat.ltb k ng = true) by exact Hok. rewrite Hk. cbn [andb]. apply Nat.ltb_lt in Hk. destruct (fresh e k) eqn:F; cbn [negb].
@@ -659,66 +717,105 @@ Section Sound.
              rewrite E. cbn. apply HG; auto.
         * exists PStale. split; [left; reflexivity|]. destruct c; exact I.
     - intros k Hk Hx. rewrite sget_after in Hx. cbn in Hx. auto.
+    - intros x. rewrite sget_after. destruct (is_glob x); auto.
   Qed.
 
   Lemma calls_ok_seq g a b : calls_ok g (SSeq a b) -> calls_ok g a /\ calls_ok g b.
-  Proof. intros H. split; intros h cs Hi; apply H; cbn; apply in_or_app; auto. Qed.
+  Proof.
+    intros [H1 H2]. split; split.
+    - intros h cs Hi. apply H1. cbn. apply in_or_app. auto.
+    - intros kj Hi. apply H2. cbn. apply in_or_app. auto.
+    - intros h cs Hi. apply H1. cbn. apply in_or_app. auto.
+    - intros kj Hi. apply H2. cbn. apply in_or_app. auto.
+  Qed.
   Lemma calls_ok_if g c a b : calls_ok g (SIf c a b) -> calls_ok g a /\ calls_ok g b.
-  Proof. intros H. split; intros h cs Hi; apply H; cbn; apply in_or_app; auto. Qed.
+  Proof. intros H. exact (calls_ok_seq g a b H). Qed.
+
+  (* the triggers of a witnessed (interface, implementation) pair *)
+  Lemma affil_methods_in funcs k : forall row m0 m f fd,
+    nth_error row m = Some f -> nth_error funcs f = Some fd ->
+    forall t, In t (affil_method k (m0 + m) f (f_nparams fd)) -> In t (affil_methods funcs k m0 row).
+  Proof.
+    induction row as [|f0 row IH]; intros m0 m f fd Hn Hf t Ht; [destruct m; discriminate|].
+    destruct m as [|m]; cbn in Hn.
+    - inversion Hn; subst. cbn [affil_methods]. rewrite Hf. rewrite Nat.add_0_r in Ht. apply in_or_app. auto.
+    - cbn [affil_methods]. apply in_or_app. right. replace (m0 + S m) with (S m0 + m) in Ht by lia. eapply IH; eauto.
+  Qed.
+
+  Lemma in_seq_from n : forall i0 i, i0 <= i < i0 + n -> In i (seq_from i0 n).
+  Proof.
+    induction n as [|n IH]; intros i0 i H; [lia|]. cbn. destruct (Nat.eq_dec i0 i); auto. right. apply IH. lia.
+  Qed.
+
+  Lemma W_result k j m f fd : W (k, j) -> nth_error (nth j (p_impls prog) []) m = Some f ->
+    nth_error (p_funcs prog) f = Some fd -> nu (SResult f) -> nu (SIResult k m).
+  Proof.
+    intros HW Hm Hf Hn. eapply edge_plain; eauto. apply HW. unfold affil. cbn.
+    eapply (affil_methods_in _ k _ 0 m f fd); eauto. cbn. left. reflexivity.
+  Qed.
+  Lemma W_param k j m f fd i : W (k, j) -> nth_error (nth j (p_impls prog) []) m = Some f ->
+    nth_error (p_funcs prog) f = Some fd -> S i < f_nparams fd -> nu (SIParam k m i) -> nu (SParam f (S i)).
+  Proof.
+    intros HW Hm Hf Hi Hn. eapply edge_plain; eauto. apply HW. unfold affil. cbn.
+    eapply (affil_methods_in _ k _ 0 m f fd); eauto. cbn. right.
+    apply in_map_iff. exists i. split; auto. apply in_seq_from. lia.
+  Qed.
 
   Theorem J_sound : forall fuel g c st s oracle e o,
     J (Has g c) ng ctr (sp2 g) g st e o -> stmt_ok prog st = true -> calls_ok g st ->
-    respects g c s e -> GInv s ->
+    respects g c s e -> GInv s -> DInv s ->
     match exec prog fuel st s oracle with
-    | ONormal s' _ => (exists e', o = Some e' /\ respects g c s' e') /\ GInv s'
-    | OReturn v s' _ => (v = VNil -> ret_ok g c) /\ GInv s'
+    | ONormal s' _ => (exists e', o = Some e' /\ respects g c s' e') /\ GInv s' /\ DInv s'
+    | OReturn v s' _ => (v = VNil -> ret_ok g c) /\ GInv s' /\ DInv s' /\ Vok v
     | OPanic _ => False
     | OOutOfFuel => True
     end.
   Proof.
-    induction fuel as [|fuel IH]; intros g c st s oracle e o HJ Hok Hcalls Hr HG; cbn [exec]; auto.
-    destruct st as [| s1 s2 | x a | cs x h args | d x | cd s1 s2 | cd body | a]; cbn in Hok.
+    induction fuel as [|fuel IH]; intros g c st s oracle e o HJ Hok Hcalls Hr HG HD; cbn [exec]; auto.
+    destruct st as [| s1 s2 | x a | cs x h args | d x | cd s1 s2 | cd body | a | x ik j | cs d x xi ik m args]; cbn in Hok.
     - apply J_skip_inv in HJ. subst. eauto.
     - apply andb_true_iff in Hok. destruct Hok as [Hc1 Hc2]. apply calls_ok_seq in Hcalls. destruct Hcalls as [Hk1 Hk2].
       apply J_seq_inv in HJ. destruct HJ as [[H1 ->]|[e1 [H1 H2]]].
-      + pose proof (IH g c s1 s oracle e None H1 Hc1 Hk1 Hr HG) as R. destruct (exec prog fuel s1 s oracle); auto.
+      + pose proof (IH g c s1 s oracle e None H1 Hc1 Hk1 Hr HG HD) as R. destruct (exec prog fuel s1 s oracle); auto.
         destruct R as [[e' [Heq _]] _]. discriminate.
-      + pose proof (IH g c s1 s oracle e (Some e1) H1 Hc1 Hk1 Hr HG) as R. destruct (exec prog fuel s1 s oracle) as [s' o'|v s' o'|d|]; auto.
-        destruct R as [[e' [Heq Hr']] HG']. inversion Heq; subst. apply IH with (e := e'); auto.
+      + pose proof (IH g c s1 s oracle e (Some e1) H1 Hc1 Hk1 Hr HG HD) as R. destruct (exec prog fuel s1 s oracle) as [s' o'|v s' o'|d|]; auto.
+        destruct R as [[e' [Heq Hr']] [HG' HD']]. inversion Heq; subst. apply IH with (e := e'); auto.
     - apply andb_true_iff in Hok. destruct Hok as [Hx Ha]. apply J_assign_inv in HJ. destruct HJ as [Hst [Hu ->]].
       destruct (inv_assign g c s e x (eval_atom s a) (prods_of_atom e a) Hr HG) as [R1 R2]; auto.
       { intros Hv. eapply eval_atom_respects; eauto. }
-      split; eauto.
+      split; [eauto|]. split; auto. apply DInv_sset; auto. now apply Vok_atom.
     - apply J_call_inv in HJ. destruct HJ as [Hargs [Hus [Hst ->]]].
       destruct (nth_error (p_funcs prog) h) as [fd|] eqn:Eh; [|discriminate].
       apply andb_true_iff in Hok. destruct Hok as [Hok Hx]. apply andb_true_iff in Hok. destruct Hok as [Hlen Hoks].
       apply Nat.eqb_eq in Hlen.
+      assert (Hvs : forall v, In v (map (eval_atom s) args) -> Vok v).
+      { intros v Hv. apply in_map_iff in Hv. destruct Hv as [a [<- _]]. now apply Vok_atom. }
       destruct (ctr h) eqn:Ech.
       + (* contracted callee: runs on behalf of this call site *)
-        destruct (Hcalls h cs (or_introl eq_refl) Ech) as [Hsp Hctx].
+        destruct (proj1 Hcalls h cs (or_introl eq_refl) Ech) as [Hsp Hctx].
         destruct (CtrTrue h fd Ech Eh) as [Hnp Hct].
         assert (Hrs : call_result_site ctr (sp2 g) h cs args = SCallResult h cs).
         { unfold call_result_site. now rewrite Ech, Hsp. }
         rewrite Hrs in *.
         destruct (FuncsOK h fd (Some cs) Eh Hctx) as [og [HJh Hend]].
-        assert (Hsub : forall i, i < f_nparams fd -> psub h (Some cs) (PSite (SParam h i)) = PSite (call_param_site ctr h cs i)).
-        { intros i Hi. rewrite Hnp in Hi. assert (i = 0) by lia. subst i. unfold call_param_site. rewrite Ech. cbn.
-          now rewrite !Nat.eqb_refl. }
-        destruct (call_entry g c s e h cs args (f_nparams fd) (Some cs) Hr HG Hargs Hoks Hus Hlen Hsub) as [Hentry HGentry].
-        pose proof (IH h (Some cs) (f_body fd) _ oracle _ og HJh (WF h fd Eh) (CallsOK h fd Eh) Hentry HGentry) as R.
         (* the argument list is a single argument *)
         destruct args as [|a0 [|a1 rest]]; cbn in Hlen; try (rewrite Hnp in Hlen; discriminate).
-        cbn [map] in R |- *.
         assert (Hcp : eval_atom s a0 = VNil -> nu (SCallParam h cs)).
-        { intros Hv. pose proof (arg_site g c s e h cs [a0] 0 a0 Hr Hargs Hoks Hus eq_refl Hv) as A.
-          unfold call_param_site in A. now rewrite Ech in A. }
+        { intros Hv. pose proof (arg_site g c s e (call_param_site ctr h cs) [a0] 0 a0 Hr Hargs Hoks Hus) as A.
+          unfold call_param_site in A. rewrite Ech in A. apply A; auto. }
+        destruct (callee_entry h (Some cs) s (map (eval_atom s) [a0]) (f_nparams fd) HG HD Hvs) as [Hentry [HGentry HDentry]].
+        { cbn. now rewrite Hnp. }
+        { intros i Hi. destruct i as [|i]; cbn in Hi; [|destruct i; discriminate]. inversion Hi as [Hv].
+          cbn. rewrite !Nat.eqb_refl. cbn. auto. }
+        pose proof (IH h (Some cs) (f_body fd) _ oracle _ og HJh (WF h fd Eh) (CallsOK h fd Eh) Hentry HGentry HDentry) as R.
+        cbn [map] in R |- *.
         assert (Hgl : forall x0, sget (globals_of s) (VL x0) = VNil) by (intros x0; unfold globals_of; now rewrite sget_filter with (P := is_glob)).
-        pose proof (Hct fuel (globals_of s) oracle Hgl) as Hcontract.
         destruct (exec prog fuel (f_body fd) (bind_params 0 [eval_atom s a0] ++ globals_of s) oracle) as [s' o'|v s' o'|d|] eqn:Ex; auto.
         * (* fell off the end: result nil *)
-          destruct R as [[e' [Heq _]] HG']. destruct (after_call g c s s' e Hr HG') as [A1 A2].
+          destruct R as [[e' [Heq _]] [HG' HD']]. destruct (after_call g c s s' e Hr HG' HD HD') as [A1 [A2 A3]].
           destruct x as [y|]; [|split; eauto].
-          destruct (eval_atom s a0) eqn:Ev; [|rewrite Ex in Hcontract; contradiction].
+          destruct (eval_atom s a0) as [|dd] eqn:Ev.
+          2:{ pose proof (Hct fuel (globals_of s) oracle dd Hgl) as Hcontract. rewrite Ex in Hcontract. contradiction. }
           destruct (inv_assign g c _ (mark_stale ng e) y VNil [PSite (SCallResult h cs)] A1 A2) as [R1 R2]; auto.
           { intros _. exists (PSite (SCallResult h cs)). split; [left; reflexivity|].
             assert (E : psub g c (PSite (SCallResult h cs)) = PSite (SCallResult h cs)) by (destruct c; reflexivity).
@@ -726,39 +823,43 @@ Section Sound.
             replace (SCallResult h cs) with (rsub h (Some cs) (SResult h)) by (cbn; now rewrite Nat.eqb_refl).
             eapply (tsite h (Some cs) 0 PNil (SResult h)); [apply Hend; congruence | exact I | discriminate |].
             intros cs0 E0 _. inversion E0; subst. auto. }
-          split; eauto.
-        * destruct R as [Hv HG']. destruct (after_call g c s s' e Hr HG') as [A1 A2].
+          split; [eauto|]. split; auto. apply DInv_sset; auto. apply Vok_nil.
+        * destruct R as [Hv [HG' [HD' Hvv]]]. destruct (after_call g c s s' e Hr HG' HD HD') as [A1 [A2 A3]].
           destruct x as [y|]; [|split; eauto].
           destruct (inv_assign g c _ (mark_stale ng e) y v [PSite (SCallResult h cs)] A1 A2) as [R1 R2]; auto.
           { intros Hnil. exists (PSite (SCallResult h cs)). split; [left; reflexivity|].
             assert (E : psub g c (PSite (SCallResult h cs)) = PSite (SCallResult h cs)) by (destruct c; reflexivity).
             rewrite E. cbn. apply (Hv Hnil). apply Hcp.
-            destruct (eval_atom s a0) eqn:Ev; auto. rewrite Ex in Hcontract. congruence. }
-          split; eauto.
+            destruct (eval_atom s a0) as [|dd] eqn:Ev; auto.
+            pose proof (Hct fuel (globals_of s) oracle dd Hgl) as Hcontract. rewrite Ex in Hcontract. congruence. }
+          split; [eauto|]. split; auto. apply DInv_sset; auto.
       + (* ordinary callee *)
         assert (Hrs : call_result_site ctr (sp2 g) h cs args = SResult h).
         { unfold call_result_site. now rewrite Ech. }
         rewrite Hrs in *.
         destruct (FuncsOK h fd None Eh I) as [og [HJh Hend]].
-        assert (Hsub : forall i, i < f_nparams fd -> psub h None (PSite (SParam h i)) = PSite (call_param_site ctr h cs i)).
-        { intros i _. unfold call_param_site. now rewrite Ech. }
-        destruct (call_entry g c s e h cs args (f_nparams fd) None Hr HG Hargs Hoks Hus Hlen Hsub) as [Hentry HGentry].
-        pose proof (IH h None (f_body fd) _ oracle _ og HJh (WF h fd Eh) (CallsOK h fd Eh) Hentry HGentry) as R.
+        destruct (callee_entry h None s (map (eval_atom s) args) (f_nparams fd) HG HD Hvs) as [Hentry [HGentry HDentry]].
+        { now rewrite map_length. }
+        { intros i Hi. rewrite nth_error_map in Hi. destruct (nth_error args i) as [a|] eqn:Ea; [|discriminate].
+          cbn in Hi. inversion Hi as [Hv]. cbn.
+          pose proof (arg_site g c s e (call_param_site ctr h cs) args i a Hr Hargs Hoks Hus) as A.
+          unfold call_param_site in A. rewrite Ech in A. apply A; auto. }
+        pose proof (IH h None (f_body fd) _ oracle _ og HJh (WF h fd Eh) (CallsOK h fd Eh) Hentry HGentry HDentry) as R.
         assert (E : psub g c (PSite (SResult h)) = PSite (SResult h)) by (destruct c; reflexivity).
         destruct (exec prog fuel (f_body fd) (bind_params 0 (map (eval_atom s) args) ++ globals_of s) oracle) as [s' o'|v s' o'|d|]; auto.
-        * destruct R as [[e' [Heq _]] HG']. destruct (after_call g c s s' e Hr HG') as [A1 A2].
+        * destruct R as [[e' [Heq _]] [HG' HD']]. destruct (after_call g c s s' e Hr HG' HD HD') as [A1 [A2 A3]].
           destruct x as [y|]; [|split; eauto].
           destruct (inv_assign g c _ (mark_stale ng e) y VNil [PSite (SResult h)] A1 A2) as [R1 R2]; auto.
           { intros _. exists (PSite (SResult h)). split; [left; reflexivity|]. rewrite E. cbn.
             change (SResult h) with (rsub h None (SResult h)).
             eapply (tsite h None 0 PNil (SResult h)); [apply Hend; congruence | exact I | discriminate |].
             intros cs0 E0. discriminate. }
-          split; eauto.
-        * destruct R as [Hv HG']. destruct (after_call g c s s' e Hr HG') as [A1 A2].
+          split; [eauto|]. split; auto. apply DInv_sset; auto. apply Vok_nil.
+        * destruct R as [Hv [HG' [HD' Hvv]]]. destruct (after_call g c s s' e Hr HG' HD HD') as [A1 [A2 A3]].
           destruct x as [y|]; [|split; eauto].
           destruct (inv_assign g c _ (mark_stale ng e) y v [PSite (SResult h)] A1 A2) as [R1 R2]; auto.
           { intros Hnil. exists (PSite (SResult h)). split; [left; reflexivity|]. rewrite E. cbn. apply (Hv Hnil). }
-          split; eauto.
+          split; [eauto|]. split; auto. apply DInv_sset; auto.
     - apply J_deref_inv in HJ. destruct HJ as [Hd [Hu ->]]. destruct (sget s x) eqn:E.
       + destruct (Hr x Hok E) as [p [Hp Hn]]. eapply tderef; eauto. eapply use_ok_in; eauto.
       + eauto.
@@ -768,10 +869,10 @@ Section Sound.
       pose proof (acond_sound g c cd e et ef trc s oracle Ea Hall Hcok Hr) as Hr'.
       destruct (eval_cond s cd oracle) as [b o'|d]; auto.
       destruct b.
-      + pose proof (IH g c s1 s o' _ o1 H1 Hc1 Hk1 Hr' HG) as R. destruct (exec prog fuel s1 s o') as [s' o''|v s' o''|d|]; auto.
+      + pose proof (IH g c s1 s o' _ o1 H1 Hc1 Hk1 Hr' HG HD) as R. destruct (exec prog fuel s1 s o') as [s' o''|v s' o''|d|]; auto.
         destruct R as [[e' [Heq Hr'']] HG']. subst o1. split; auto. destruct o2 as [e2|]; cbn; eexists; split; eauto.
         eapply respects_le; [exact Hr''|apply join_le_l].
-      + pose proof (IH g c s2 s o' _ o2 H2 Hc2 Hk2 Hr' HG) as R. destruct (exec prog fuel s2 s o') as [s' o''|v s' o''|d|]; auto.
+      + pose proof (IH g c s2 s o' _ o2 H2 Hc2 Hk2 Hr' HG HD) as R. destruct (exec prog fuel s2 s o') as [s' o''|v s' o''|d|]; auto.
         destruct R as [[e' [Heq Hr'']] HG']. subst o2. split; auto. destruct o1 as [e1|]; cbn; eexists; split; eauto.
         eapply respects_le; [exact Hr''|apply join_le_r].
     - apply andb_true_iff in Hok. destruct Hok as [Hcok Hbok].
@@ -780,21 +881,72 @@ Section Sound.
       pose proof (acond_sound g c cd einv et ef trc s oracle Ea Hall Hcok Hri) as Hr'.
       destruct (eval_cond s cd oracle) as [b o'|d]; auto.
       destruct b.
-      + pose proof (IH g c body s o' _ ob Hb Hbok Hcalls Hr' HG) as R. destruct (exec prog fuel body s o') as [s' o''|v s' o''|d|]; auto.
-        destruct R as [[e' [Heq Hr'']] HG']. subst ob.
+      + pose proof (IH g c body s o' _ ob Hb Hbok Hcalls Hr' HG HD) as R. destruct (exec prog fuel body s o') as [s' o''|v s' o''|d|]; auto.
+        destruct R as [[e' [Heq Hr'']] [HG' HD']]. subst ob.
         assert (HJ' : J (Has g c) ng ctr (sp2 g) g (SWhile cd body) einv (Some ef)).
         { eapply JWhile; eauto. apply env_le_refl. }
         apply (IH g c (SWhile cd body) s' o'' einv _ HJ'); auto.
         * cbn. now rewrite Hcok, Hbok.
         * eapply respects_le; eauto.
       + split; eauto.
-    - apply J_return_inv in HJ. destruct HJ as [Hret [Hu ->]]. split; auto. intros Hv.
+    - apply J_return_inv in HJ. destruct HJ as [Hret [Hu ->]]. split; [|split; [auto|split; [auto|now apply Vok_atom]]]. intros Hv.
       destruct (eval_atom_respects g c s e a Hok Hr Hv) as [p [Hp Hn]].
       assert (Hs : p <> PStale) by (eapply use_ok_in; eauto).
       destruct c as [cs|]; cbn.
       + intros Hcp. replace (SCallResult g cs) with (rsub g (Some cs) (SResult g)) by (cbn; now rewrite Nat.eqb_refl).
         eapply tsite; eauto. intros cs0 E0 _. inversion E0; subst. exact Hcp.
       + change (SResult g) with (rsub g None (SResult g)). eapply tsite; eauto. intros cs0 E0. discriminate.
+    - (* conversion to an interface: a non-nil value whose (interface, implementation) pair is witnessed *)
+      apply J_conv_inv in HJ. subst.
+      destruct (inv_assign_nonnil g c s e x (VPtr (Some (ik, j))) [PNever] Hr HG) as [R1 R2]; [discriminate|].
+      split; [eauto|]. split; auto. apply DInv_sset; auto.
+      intros k' j' E. inversion E; subst. apply (proj2 Hcalls). left. reflexivity.
+    - (* method call on an interface value *)
+      apply J_calli_inv in HJ. destruct HJ as [Hd [Hu [Hargs [Hus [Hst ->]]]]].
+      apply andb_true_iff in Hok. destruct Hok as [Hok Hrows]. apply andb_true_iff in Hok. destruct Hok as [Hok Hx].
+      apply andb_true_iff in Hok. destruct Hok as [Hxi Hoks].
+      destruct (sget s xi) as [|[[k' j]|]] eqn:Exi; auto.
+      + destruct (Hr xi Hxi Exi) as [p [Hp Hn]]. eapply tderef; eauto. eapply use_ok_in; eauto.
+      + destruct (Nat.eqb ik k') eqn:Ek; auto. apply Nat.eqb_eq in Ek. subst k'.
+        destruct (nth_error (nth j (p_impls prog) []) m) as [f|] eqn:Em; auto.
+        destruct (nth_error (p_funcs prog) f) as [fd|] eqn:Ef; auto.
+        assert (Hrow : In (nth j (p_impls prog) []) (p_impls prog)).
+        { destruct (nth_in_or_default j (p_impls prog) []) as [Hin|E]; auto. rewrite E in Em. destruct m; discriminate. }
+        assert (Hnp : f_nparams fd = S (length args)).
+        { rewrite forallb_forall in Hrows. specialize (Hrows _ Hrow). cbn beta in Hrows.
+          assert (Em' : @nth_error nat (nth j (p_impls prog) []) m = Some f) by exact Em.
+          rewrite Em', Ef in Hrows. now apply Nat.eqb_eq. }
+        assert (Hcf : ctr f = false) by (eapply ImplsPlain; eauto; eapply nth_error_In; eauto).
+        assert (HW : W (ik, j)) by (eapply (HD xi); eauto).
+        destruct (FuncsOK f fd None Ef I) as [og [HJf Hend]].
+        assert (Hvs : forall v, In v (VPtr None :: map (eval_atom s) args) -> Vok v).
+        { intros v [<-|Hv]; [apply Vok_plain|]. apply in_map_iff in Hv. destruct Hv as [a [<- _]]. now apply Vok_atom. }
+        destruct (callee_entry f None s (VPtr None :: map (eval_atom s) args) (f_nparams fd) HG HD Hvs) as [Hentry [HGentry HDentry]].
+        { cbn. now rewrite map_length. }
+        { intros i Hi. destruct i as [|i]; cbn in Hi; [discriminate|].
+          rewrite nth_error_map in Hi. destruct (nth_error args i) as [a|] eqn:Ea; [|discriminate].
+          cbn in Hi. inversion Hi as [Hv]. cbn.
+          assert (Hlt : i < length args) by (apply nth_error_Some; congruence).
+          eapply (W_param ik j m f fd i); eauto; [lia|].
+          eapply (arg_site g c s e (SIParam ik m) args i a); eauto. }
+        pose proof (IH f None (f_body fd) _ oracle _ og HJf (WF f fd Ef) (CallsOK f fd Ef) Hentry HGentry HDentry) as R.
+        assert (E : psub g c (PSite (SIResult ik m)) = PSite (SIResult ik m)) by (destruct c; reflexivity).
+        destruct (exec prog fuel (f_body fd) (bind_params 0 (VPtr None :: map (eval_atom s) args) ++ globals_of s) oracle) as [s' o'|v s' o'|d'|]; auto.
+        * destruct R as [[e' [Heq _]] [HG' HD']]. destruct (after_call g c s s' e Hr HG' HD HD') as [A1 [A2 A3]].
+          destruct x as [y|]; [|split; eauto].
+          destruct (inv_assign g c _ (mark_stale ng e) y VNil [PSite (SIResult ik m)] A1 A2) as [R1 R2]; auto.
+          { intros _. exists (PSite (SIResult ik m)). split; [left; reflexivity|]. rewrite E. cbn.
+            eapply (W_result ik j m f fd); eauto.
+            change (SResult f) with (rsub f None (SResult f)).
+            eapply (tsite f None 0 PNil (SResult f)); [apply Hend; congruence | exact I | discriminate |].
+            intros cs0 E0. discriminate. }
+          split; [eauto|]. split; auto. apply DInv_sset; auto. apply Vok_nil.
+        * destruct R as [Hv [HG' [HD' Hvv]]]. destruct (after_call g c s s' e Hr HG' HD HD') as [A1 [A2 A3]].
+          destruct x as [y|]; [|split; eauto].
+          destruct (inv_assign g c _ (mark_stale ng e) y v [PSite (SIResult ik m)] A1 A2) as [R1 R2]; auto.
+          { intros Hnil. exists (PSite (SIResult ik m)). split; [left; reflexivity|]. rewrite E. cbn.
+            eapply (W_result ik j m f fd); eauto. apply (Hv Hnil). }
+          split; [eauto|]. split; auto. apply DInv_sset; auto.
   Qed.
 End Sound.
 
@@ -850,17 +1002,18 @@ Proof. intros Hn Hx. apply in_concat. exists l. split; auto. eapply nth_error_In
    execution of the program dereferences nil -- whatever the opaque conditions answer and however long it runs. *)
 Theorem flow_sound prog afuel ctr pk r :
   analyze_program afuel ctr pk prog = Some r -> r_gsafe r = true -> r_clocal r = true ->
-  wf_program prog = true -> ctr_arity ctr 0 (p_funcs prog) = true ->
+  wf_program prog = true -> ctr_arity ctr 0 (p_funcs prog) = true -> impls_plain prog ctr = true ->
   (forall g fd, ctr g = true -> nth_error (p_funcs prog) g = Some fd -> contract_true prog fd) ->
   ~ has_flow (csys_of [] [] (all_triggers r)) ->
   forall fuel oracle, panic_of (run_program prog fuel oracle) = None.
 Proof.
-  intros Han Hgs Hcl Hwf Har Hct Hnf fuel oracle. unfold analyze_program in Han.
+  intros Han Hgs Hcl Hwf Har Himp Hct Hnf fuel oracle. unfold analyze_program in Han.
   set (sp2 := fun f g : fname => Nat.eqb (pk f) (pk g)) in *.
   destruct (analyze_funcs (length (p_ginit prog)) afuel ctr sp2 0 (p_funcs prog)) as [[tss b0]|] eqn:Ef; [|discriminate].
   inversion Han; subst r. clear Han. cbn in Hgs, Hcl. subst b0.
   apply andb_true_iff in Hwf. destruct Hwf as [Hwf Hentry].
   set (r := {| r_decl := decl_triggers 0 (p_ginit prog); r_funcs := tss; r_dups := dups_all ctr sp2 tss 0 (p_funcs prog);
+               r_affil := map (fun fd => flat_map (affil prog) (convs_of (f_body fd))) (p_funcs prog);
                r_gsafe := true; r_clocal := ctr_local ctr sp2 0 (p_funcs prog) |}) in *.
   set (ALLs := all_strigs r) in *.
   assert (InF : forall g tg t, nth_error tss g = Some tg -> In t tg -> In t ALLs).
@@ -876,7 +1029,7 @@ Proof.
     { intros t Ht. unfold Has, inst. destruct c as [cs|]; [|eapply InF; eauto].
       destruct (touches g t) eqn:Et; [|eapply InF; eauto].
       destruct Hctx as [Hcg [fc [fdc [Hfc [Hin Hsp]]]]].
-      unfold ALLs, all_strigs. cbn. apply in_or_app. right. apply in_or_app. right.
+      unfold ALLs, all_strigs. cbn. apply in_or_app. right. apply in_or_app. right. apply in_or_app. left.
       eapply in_concat_nth; [apply (dups_all_nth ctr sp2 tss _ 0 fc fdc Hfc)|].
       unfold dups_of_caller. apply in_flat_map. exists (g, cs). split; auto. cbn. rewrite Hcg, Hsp. cbn.
       unfold dups. apply in_map. apply filter_In. split; auto.
@@ -888,10 +1041,16 @@ Proof.
   { intros g fd Hg. eapply (forallb_nth (fun fd => stmt_ok prog (f_body fd))); eauto. }
   assert (CtrTrue : forall g fd, ctr g = true -> nth_error (p_funcs prog) g = Some fd -> f_nparams fd = 1 /\ contract_true prog fd).
   { intros g fd Hc Hg. split; [eapply (ctr_arity_nth ctr _ 0 g); eauto | eapply Hct; eauto]. }
-  assert (CallsOK : forall g fd, nth_error (p_funcs prog) g = Some fd -> calls_ok prog ctr sp2 g (f_body fd)).
-  { intros g fd Hg h cs Hin Hc. pose proof (ctr_local_nth ctr sp2 _ 0 g fd Hcl Hg) as Hl.
-    rewrite forallb_forall in Hl. specialize (Hl (h, cs) Hin). cbn in Hl. rewrite Hc in Hl. cbn in Hl.
-    split; auto. split; auto. exists g, fd. auto. }
+  assert (ImplsPlain : forall row f, In row (p_impls prog) -> In f row -> ctr f = false).
+  { intros row f Hrow Hf. unfold impls_plain in Himp. rewrite forallb_forall in Himp. specialize (Himp row Hrow).
+    rewrite forallb_forall in Himp. specialize (Himp f Hf). now apply negb_true_iff in Himp. }
+  assert (CallsOK : forall g fd, nth_error (p_funcs prog) g = Some fd -> calls_ok prog ctr sp2 ALLs g (f_body fd)).
+  { intros g fd Hg. split.
+    - intros h cs Hin Hc. pose proof (ctr_local_nth ctr sp2 _ 0 g fd Hcl Hg) as Hl.
+      rewrite forallb_forall in Hl. specialize (Hl (h, cs) Hin). cbn in Hl. rewrite Hc in Hl. cbn in Hl.
+      split; auto. split; auto. exists g, fd. auto.
+    - intros kj Hin t Ht. unfold ALLs, all_strigs. cbn. apply in_or_app. right. apply in_or_app. right. apply in_or_app. right.
+      eapply in_concat_nth; [apply map_nth_error; exact Hg|]. apply in_flat_map. exists kj. auto. }
   unfold run_program. destruct (nth_error (p_funcs prog) 0) as [fd|] eqn:E0; [|reflexivity].
   destruct (FuncsOK 0 fd None E0 I) as [o [HJ _]].
   assert (Hnp : f_nparams fd = 0).
@@ -904,10 +1063,25 @@ Proof.
     - eapply (tsite_plain ALLs 0 None 0 PNil (SGlobal k)); [|exact I|discriminate|reflexivity].
       unfold Has, inst, ALLs, all_strigs. cbn. apply in_or_app. left. apply (decl_triggers_in (p_ginit prog) 0 k En).
     - apply nth_error_None in En. lia. }
+  assert (HD : DInv prog ALLs (init_globals 0 (p_ginit prog))).
+  { intros x k j E. destruct x as [i|g].
+    - rewrite init_globals_local in E. discriminate.
+    - rewrite init_globals_get in E. cbn in E. destruct (nth_error (p_ginit prog) (g - 0)) as [[|]|]; discriminate. }
   assert (Hr : respects prog ALLs 0 None (init_globals 0 (p_ginit prog)) []).
   { intros x Hok Hx. destruct x as [i|k]; cbn.
     - exists PNil. split; [left; reflexivity|exact I].
     - exists (PSite (SGlobal k)). split; [left; reflexivity|]. cbn. apply HG; auto. cbn in Hok. now apply Nat.ltb_lt in Hok. }
-  pose proof (J_sound prog ctr sp2 ALLs Hnf' FuncsOK WF CtrTrue CallsOK fuel 0 None (f_body fd) _ oracle [] o HJ (WF 0 fd E0) (CallsOK 0 fd E0) Hr HG) as R.
+  pose proof (J_sound prog ctr sp2 ALLs Hnf' FuncsOK WF CtrTrue ImplsPlain CallsOK fuel 0 None (f_body fd) _ oracle [] o HJ (WF 0 fd E0) (CallsOK 0 fd E0) Hr HG HD) as R.
   destruct (exec prog fuel (f_body fd) (init_globals 0 (p_ginit prog)) oracle); cbn; auto. contradiction.
+Qed.
+
+(* every (interface, implementation) pair witnessed by a conversion of the program has its triggers *)
+Lemma convs_witnessed prog afuel ctr pk r :
+  analyze_program afuel ctr pk prog = Some r ->
+  forall g fd kj, nth_error (p_funcs prog) g = Some fd -> In kj (convs_of (f_body fd)) -> W prog (all_strigs r) kj.
+Proof.
+  intros Han g fd kj Hg Hin t Ht. unfold analyze_program in Han.
+  destruct (analyze_funcs (length (p_ginit prog)) afuel ctr (fun f g0 : fname => Nat.eqb (pk f) (pk g0)) 0 (p_funcs prog)) as [[tss b]|]; [|discriminate].
+  inversion Han; subst. unfold all_strigs. cbn. apply in_or_app. right. apply in_or_app. right. apply in_or_app. right.
+  eapply in_concat_nth; [apply map_nth_error; exact Hg|]. apply in_flat_map. exists kj. auto.
 Qed.
